@@ -282,7 +282,11 @@ Definition dot (a b : list R) : R := rsuml (map (fun p => rmul (fst p) (snd p)) 
 Fixpoint rpow (t : R) (k : nat) : R := match k with O => rI | S k' => rmul (rpow t k') t end.
 Fixpoint rofnat (n : nat) : R := match n with O => rO | S k => radd rI (rofnat k) end.
 
-(* rolling_window: y = np.convolve(w / w.sum(), s, 'valid')[start:stop] *)
+(* rolling_window: y = np.convolve(w / w.sum(), s, 'valid')[start:stop].
+   Result dtype: the weights are float64, so the convolution and the returned slice are float64 WHATEVER the dtype or
+   container of x (int16/int32/int64/uint8 arrays, lists of ints, float32): the model's values live in a field,
+   nothing is cast back to the input type (the same holds for smooth.lp — real(ifft(...)) — and for
+   non_uniform_savgol — np.full(len(y), nan)). *)
 Definition rolling (w : list R) (x : list R) : list R :=
   let wn := map (fun a => rdiv a (rsuml w)) w in
   map (dot wn) (rolling_windows (Z.of_nat (length w)) x).
